@@ -519,3 +519,36 @@ Print Assumptions from_format_ordinal_month_end_both_backends.
 Theorem hand_modelled_sources_pinned : List.length source_fingerprints = 16%nat.
 Proof. exact (f_equal (@List.length _) hand_modelled_sources_unchanged). Qed.
 Print Assumptions hand_modelled_sources_pinned.
+
+(* ------------------------------------------------------------ the regex matching step of from_format, for every DateTime *)
+From PV Require Import Proofs.MreShape Proofs.C08Match.
+
+(* generic (any assembled pattern r, any input): inputs whose characters are pairwise indistinguishable by the character tests of r and by
+   the newline test of `$` get the same answer from the anchored search ... *)
+Theorem from_format_search_shape_invariant : forall r s0 s, Forall2 (simR r) s0 s -> search_anchored r s = search_anchored r s0.
+Proof. exact search_anchored_shape. Qed.
+Print Assumptions from_format_search_shape_invariant.
+
+(* ... and the matches of the re.sub pass on s are the substrings of s at the spans found on the representative s0 *)
+Theorem from_format_matches_by_representative : forall r fuel s0 s, Forall2 (simR r) s0 s ->
+  sub_matches fuel r s = option_map (map (tx s)) (sub_matches_sp fuel r s0).
+Proof. exact sub_matches_shape. Qed.
+Print Assumptions from_format_matches_by_representative.
+
+(* the three matching hypotheses of from_format_inverts_format_partial hold for EVERY DateTime with fields of the usual widths
+   (dt_widths: month, day, hour, minute, second below 100, microsecond below 10^6): iso_re colon is the pattern the model assembles *)
+Theorem from_format_matching_step : forall colon t, dt_in_range t -> 1000 <= t_year t <= 9999 -> dt_widths t ->
+  parse_pattern loc_en (iso_fmt colon) = Ok (iso_names colon, iso_re colon) /\
+  search_anchored (iso_re colon) (iso_render colon t) = true /\
+  sub_matches (S (length (iso_render colon t))) (iso_re colon) (iso_render colon t) = Some [iso_caps colon t].
+Proof. exact (fun colon t Hr Hy Hw => conj (iso_re_pattern colon) (iso_render_matches colon t Hr Hy Hw)). Qed.
+Print Assumptions from_format_matching_step.
+
+(* hence from_format(dt.format(fmt), fmt) = dt's fields and offset for fmt = "YYYY-MM-DD HH:mm:ss.SSSSSS Z" (colon = true) or "... ZZ",
+   with NO hypothesis about the regex: tokenisation, pattern assembly, matching, _get_parsed_value, offset arithmetic, _check_parsed *)
+Theorem from_format_inverts_format : forall (rs : bool) (zones : list str) (now : pnow) (colon : bool) (t : pdt),
+  dt_in_range t -> 1000 <= t_year t <= 9999 -> dt_widths t ->
+  bind (format [101;110] t (iso_fmt colon)) (fun s => parse rs zones [101;110] now s (iso_fmt colon)) =
+  Ok (t_year t, t_month t, t_day t, t_hour t, t_minute t, t_second t, t_micro t, Some (TzFixed (t_off t))).
+Proof. exact from_format_inverts_iso_full. Qed.
+Print Assumptions from_format_inverts_format.
